@@ -19,8 +19,8 @@ EXTENDS Naturals, Integers, Sequences, FiniteSets, TLC, Json, IOUtils, Admission
 Rec == ndJsonDeserialize(IOEnv.TRACE)
 N == Len(Rec)
 
-VARIABLES l, api, cfg, ns, adm, ghost, conn, viol, nviol, ndec
-vars == <<l, api, cfg, ns, adm, ghost, conn, viol, nviol, ndec>>
+VARIABLES l, api, cfg, ns, adm, ghost, conn, viol, nviol, ndec, sb
+vars == <<l, api, cfg, ns, adm, ghost, conn, viol, nviol, ndec, sb>>
 Ev == Rec[l]
 Empty == [x \in {} |-> 0]
 
@@ -29,12 +29,12 @@ Note(clause, cond) ==
   /\ viol' = IF Len(viol) < 2000 THEN Append(viol, [line |-> l, clause |-> clause, cond |-> cond]) ELSE viol
 
 Init == l = 1 /\ api = "" /\ cfg = Empty /\ ns = 0 /\ adm = Empty /\ ghost = <<>> /\ conn = Empty
-        /\ viol = <<>> /\ nviol = 0 /\ ndec = 0
+        /\ viol = <<>> /\ nviol = 0 /\ ndec = 0 /\ sb = FALSE
 
 Reset == /\ Ev.ev = "Reset" /\ api' = Ev.api /\ cfg' = Ev.cfg /\ ns' = Ev.ns
-         /\ adm' = Empty /\ ghost' = <<>> /\ conn' = Empty /\ UNCHANGED <<viol, nviol, ndec>>
+         /\ adm' = Empty /\ ghost' = <<>> /\ conn' = Empty /\ sb' = FALSE /\ UNCHANGED <<viol, nviol, ndec>>
 
-SetNet == Ev.ev = "SetNet" /\ ns' = Ev.ns /\ UNCHANGED <<api, cfg, adm, ghost, conn, viol, nviol, ndec>>
+SetNet == Ev.ev = "SetNet" /\ ns' = Ev.ns /\ UNCHANGED <<api, cfg, adm, ghost, conn, viol, nviol, ndec, sb>>
 
 (* number of admitted nodes (ids in S) counted under key k *)
 CountIn(a, S, k) == Cardinality({i \in S : k \in Keys(a[i])})
@@ -60,7 +60,7 @@ Judge(x, id, ok, err) ==
   ELSE IF Below(x) THEN Note("AdmitWhenBelow", Cause(x)) ELSE UNCHANGED <<viol, nviol>>
 
 Can == /\ Ev.ev = "Can" /\ ndec' = ndec + 1 /\ Judge(Ev.x, -1, Ev.ok, "ip")
-       /\ UNCHANGED <<api, cfg, ns, adm, ghost, conn>>
+       /\ UNCHANGED <<api, cfg, ns, adm, ghost, conn, sb>>
 
 Add == /\ Ev.ev = "Add" /\ ndec' = ndec + 1 /\ Judge(Ev.x, Ev.id, Ev.ok, Ev.err)
        /\ IF Ev.ok
@@ -68,13 +68,13 @@ Add == /\ Ev.ev = "Add" /\ ndec' = ndec + 1 /\ Judge(Ev.x, Ev.id, Ev.ok, Ev.err)
                /\ ghost' = IF Ev.id \in DOMAIN adm /\ HasIp(adm[Ev.id]) THEN Append(ghost, [x |-> adm[Ev.id], src |-> "refresh"]) ELSE ghost
           ELSE /\ UNCHANGED adm
                /\ ghost' = IF Ev.err \in {"bucket", "region"} /\ HasIp(Ev.x) THEN Append(ghost, [x |-> Ev.x, src |-> "partial"]) ELSE ghost
-       /\ UNCHANGED <<api, cfg, ns, conn>>
+       /\ UNCHANGED <<api, cfg, ns, conn, sb>>
 
 Rm == /\ Ev.ev = "Rm"
       /\ adm' = [i \in DOMAIN adm \ {Ev.id} |-> adm[i]]
       /\ ghost' = IF Ev.id \in DOMAIN adm /\ HasIp(adm[Ev.id]) /\ Ev.via # "remove_unified"
                   THEN Append(ghost, [x |-> adm[Ev.id], src |-> "evict"]) ELSE ghost
-      /\ UNCHANGED <<api, cfg, ns, conn, viol, nviol, ndec>>
+      /\ UNCHANGED <<api, cfg, ns, conn, viol, nviol, ndec, sb>>
 
 (* get_diversity_stats(): per level the largest counter and the number of keys in use *)
 LevelKeys(lv, fam) == {k \in UNION {KeysOf(adm[i]) : i \in DOMAIN adm} : k[1] = lv /\ k[2] = fam}
@@ -84,19 +84,21 @@ Stats == /\ Ev.ev = "Stats"
          /\ IF /\ Ev.mx = <<MaxCnt("L1", 6), MaxCnt("L2", 6), MaxCnt("L3", 6), MaxCnt("L1", 4), MaxCnt("L2", 4), MaxCnt("L3", 4)>>
                /\ Ev.tot = <<Cardinality(LevelKeys("L1", 6)), Cardinality(LevelKeys("L2", 6)), Cardinality(LevelKeys("L3", 6)),
                              Cardinality(LevelKeys("L1", 4)), Cardinality(LevelKeys("L2", 4)), Cardinality(LevelKeys("L3", 4))>>
-            THEN UNCHANGED <<viol, nviol>> ELSE Note("SlotAccounting", "stats")
+            THEN UNCHANGED <<viol, nviol, sb>>
+            ELSE /\ sb' = TRUE                                   \* reported once per segment, not at every later snapshot
+                 /\ IF sb THEN UNCHANGED <<viol, nviol>> ELSE Note("SlotAccounting", "stats")
          /\ UNCHANGED <<api, cfg, ns, adm, ghost, conn, ndec>>
 
 (* integrated path: peers that connected, then the content of the routing table *)
 Connect == Ev.ev = "Connect" /\ conn' = [i \in DOMAIN conn \cup {Ev.id} |-> IF i = Ev.id THEN Ev.x ELSE conn[i]]
-           /\ UNCHANGED <<api, cfg, ns, adm, ghost, viol, nviol, ndec>>
+           /\ UNCHANGED <<api, cfg, ns, adm, ghost, viol, nviol, ndec, sb>>
 Table == /\ Ev.ev = "Table" /\ ndec' = ndec + 1
          /\ LET S == {Ev.ids[i] : i \in 1..Len(Ev.ids)} \cap DOMAIN conn
                 bad == {i \in S : \E k \in KeysOf(conn[i]) : CountIn(conn, S, k) > Limit(k, conn[i], cfg, ns)} IN
             IF bad = {} THEN UNCHANGED <<viol, nviol>> ELSE Note("CapAtAdmission", "connect-path")
-         /\ UNCHANGED <<api, cfg, ns, adm, ghost, conn>>
+         /\ UNCHANGED <<api, cfg, ns, adm, ghost, conn, sb>>
 
-Panic == Ev.ev = "Panic" /\ Note("NoPanic", Ev.via) /\ UNCHANGED <<api, cfg, ns, adm, ghost, conn, ndec>>
+Panic == Ev.ev = "Panic" /\ Note("NoPanic", Ev.via) /\ UNCHANGED <<api, cfg, ns, adm, ghost, conn, ndec, sb>>
 
 Next == /\ l <= N /\ l' = l + 1
         /\ (Reset \/ SetNet \/ Can \/ Add \/ Rm \/ Stats \/ Connect \/ Table \/ Panic)
